@@ -392,10 +392,151 @@ def group_leg(params, res):
                           case=desc)
 
 
+def shared_leg(params, res):
+    """two real sync groups that share terminals: group A (reads and
+    writes) runs, then - optionally after a terminal has raised its error
+    flag, which the second bring-up acknowledges - group B (reads only)
+    starts on the same terminals; A then ends by cancellation or by an
+    exception in a device, or not at all. The FMMU register writes at the
+    terminals are followed: no FMMU that is live for one mapping is
+    programmed for another, and while B runs its mappings stay switched
+    on"""
+    import random
+    from .. import simgroup
+    from ebpfcat.ebpfcat import (PacketVar, SimpleEtherCat, SyncGroup,
+                                 SyncManager)
+    rng = random.Random(params["seed"] * 37 + 11)
+    for round_ in range(params["count"]):
+        terms = simgroup.gen_terms(rng, nmax=3)
+        for d in terms:
+            d["fmmu"] = True
+        terms[0]["rw"] = True
+        how = rng.choice(["cancel", "cancel", "raise", "stay"])
+        error_on = rng.choice([None, None, 0, len(terms) - 1])
+        third = rng.random() < 0.5
+        sims = simgroup.make_sims(terms)
+        b = bus.Bus(sims)
+        out = {}
+
+        class Boom(Exception):
+            pass
+
+        async def main(loop):
+            ec = SimpleEtherCat("vf")
+            bus.attach(ec, loop, b)
+            ts, devs_a = simgroup.make_rig(terms, ec)
+            sub = [i for i in range(len(ts)) if rng.random() < 0.7] or [0]
+            devs_b = [simgroup.RecDevice(
+                PacketVar(ts[i], SyncManager.IN, 0, "H"), None, 50 + i)
+                for i in sub]
+            sga = SyncGroup(ec, devs_a)
+            ta = sga.start()
+            await asyncio.sleep(0.1)
+            if error_on is not None:
+                sims[error_on].al_error = True
+                sims[error_on].al_code = 0x1b
+            sgb = SyncGroup(ec, devs_b)
+            tb = sgb.start()
+            await asyncio.sleep(0.1)
+            tc = None
+            if third:
+                # (FMMUs are mapped before the bring-up: what a bring-up did
+                # to the slot table shows when the next group maps)
+                sgc = SyncGroup(ec, [simgroup.RecDevice(
+                    PacketVar(ts[i], SyncManager.IN, 0, "H"), None, 70 + i)
+                    for i in sub])
+                tc = sgc.start()
+                await asyncio.sleep(0.1)
+            out["b_updates_before"] = devs_b[0].n
+            if how == "cancel":
+                ta.cancel()
+            elif how == "raise":
+                def boom():
+                    raise Boom("device failed")
+                devs_a[0].update = boom
+            await asyncio.sleep(0.15)
+            out["b_running"] = not tb.done()
+            out["b_outcome"] = None if not tb.done() else repr(
+                tb.exception() if not tb.cancelled() else "cancelled")[:80]
+            out["b_maps"] = {t.position: dict(m)
+                             for t, m in sgb.fmmu_maps.items()}
+            out["active"] = {s.station: [(i, ls) for i, ls, ln, ph, ty
+                                         in s.fmmus()] for s in sims}
+            out["b_updates"] = devs_b[0].n
+            tb.cancel()
+            ta.cancel()
+            if tc is not None:
+                tc.cancel()
+                await asyncio.gather(tc, return_exceptions=True)
+            await asyncio.gather(ta, tb, return_exceptions=True)
+        try:
+            aio.run(main, max_iterations=400000)
+        except aio.Idle:
+            res.inconc("shared-terminal leg: virtual loop ran away")
+            continue
+        except aio.WallClock:
+            res.inconc("shared-terminal leg: wall-clock watchdog")
+            continue
+        desc = dict(terms=terms, how=how, error_on=error_on, shared=True,
+                    third_group=third)
+        if third:
+            res.count("histories_with_a_third_group")
+        res.case(["shared", round_, desc])
+        res.count("histories_of_two_groups_sharing_terminals")
+        res.count(f"first_group_end[{how}]")
+        if error_on is not None:
+            res.count("second_bring_up_acknowledges_an_error")
+        # 1. register writes: an FMMU live for one mapping is not programmed
+        # for another
+        bad = None
+        for s_ in sims:
+            live = {}
+            for e in s_.events:
+                if e[0] != "fmmu":
+                    continue
+                lstart, ln, lsb, leb, phys, pb, typ, act = struct.unpack(
+                    "<IHBBHBBB", e[2][:13])
+                if act & 1 and ln:
+                    if e[1] in live and live[e[1]] != lstart:
+                        bad = (f"{s_.name}: FMMU {e[1]}, live for logical "
+                               f"{live[e[1]]:#x}, was programmed for "
+                               f"{lstart:#x}")
+                        break
+                    live[e[1]] = lstart
+                elif not act & 1:
+                    live.pop(e[1], None)
+            if bad:
+                break
+        if bad:
+            res.violation("unexplained:shared-fmmu-reprogrammed", bad,
+                          case=desc)
+            continue
+        # 2. B's mappings are still switched on while B runs
+        if not out["b_running"]:
+            res.violation("unexplained:second-group-ended",
+                          f"the second group ended by itself: "
+                          f"{out['b_outcome']}", case=desc)
+            continue
+        for pos, maps in out["b_maps"].items():
+            for sm, base in maps.items():
+                if not any(ls == base for i, ls in out["active"][pos]):
+                    res.violation(
+                        "unexplained:live-mapping-switched-off",
+                        f"terminal {pos}: the running second group maps "
+                        f"logical {base:#x}, no active FMMU has it "
+                        f"(active {out['active'][pos]}) after the first "
+                        f"group ended by {how}", case=desc)
+                    break
+            else:
+                continue
+            break
+
+
 def run_shard(params):
     res = Result()
     if params.get("group"):
         group_leg(params, res)
+        shared_leg(params, res)
         return res
     n = params["n"]
     if params.get("concurrent"):
